@@ -34,11 +34,11 @@ type Obligation struct {
 func (o Obligation) Key() string { return o.Func + " :: " + o.Construct }
 
 type Report struct {
-	Prog     *Program
-	Property string
-	Obls     []Obligation
-	floors   map[string]int
-	notes    []string
+	Prog      *Program
+	Property  string
+	Obls      []Obligation
+	floors    map[string]int
+	notes     []string
 	funcsSeen map[string]bool
 }
 
